@@ -30,6 +30,7 @@ type Ctx struct {
 	asserts   []string          // assumptions (function encoding, callee ensures, axioms)
 	tags      map[int]string    // index into asserts -> tag (see assertTagged)
 	typeIDs   map[string]int    // type string -> small id
+	rtags     map[string]int    // heap name -> tag of the objects kept in it
 	typeByID  []types.Type      // id -> type
 	structDT  map[string]string // struct type string -> datatype sort name
 	strLits   map[string]string // literal -> const name
@@ -508,6 +509,59 @@ func (c *Ctx) elemHeap(t types.Type) (name, sort string) {
 }
 
 func mapKeyType(m *types.Map) types.Type { return m.Key() }
+
+// refHeap names the heap that holds the contents of the object a value of type t refers to
+// (backing array, map, pointee): objects kept in different heaps are different objects.
+func (c *Ctx) refHeap(t types.Type) string {
+	switch u := t.Underlying().(type) {
+	case *types.Slice:
+		n, _ := c.elemHeap(u.Elem())
+		return n
+	case *types.Map:
+		n, _, _, _ := c.mapHeaps(t)
+		return n
+	case *types.Pointer:
+		n, _ := c.cellHeap(u.Elem())
+		return n
+	}
+	return "?" + t.String()
+}
+
+func (c *Ctx) addrHeap(a *Addr) string {
+	if a.Elem {
+		n, _ := c.elemHeap(a.CellT)
+		return n
+	}
+	n, _ := c.cellHeap(a.CellT)
+	return n
+}
+
+// memoBorn(r): r was allocated by a call of a memoising function (fixed at allocation, so no
+// loop or call changes it).
+func (c *Ctx) memoBorn(r string) string {
+	if !c.declared["fun:memoborn"] {
+		c.declared["fun:memoborn"] = true
+		c.rawDecl("(declare-fun memoborn (Ref) Bool)")
+	}
+	return "(memoborn " + r + ")"
+}
+
+// rtagID: the tag (an integer literal) of a heap name; rtag maps an object to the tag of its heap.
+func (c *Ctx) rtagID(heap string) string {
+	if !c.declared["fun:rtag"] {
+		c.declared["fun:rtag"] = true
+		c.rawDecl("(declare-fun rtag (Ref) Int)")
+	}
+	if c.rtags == nil {
+		c.rtags = map[string]int{}
+	}
+	id, ok := c.rtags[heap]
+	if !ok {
+		id = len(c.rtags) + 1
+		c.rtags[heap] = id
+	}
+	return fmt.Sprint(id)
+}
 
 func (c *Ctx) mapHeaps(t types.Type) (has, hasSort, val, valSort string) {
 	m := t.Underlying().(*types.Map)
